@@ -74,7 +74,7 @@ def discover():
         lines = open(os.path.join(KANI, "src", fn)).read().split("\n")
         meta = None
         for ln in lines:
-            m = re.match(r"\s*//@\s*(C\d+)\s+(quick|thorough|witness)\s+(\d+)\s+(.*)$", ln)
+            m = re.match(r"\s*//@\s*(C\d+)\s+(quick|thorough|extended|witness)\s+(\d+)\s+(.*)$", ln)
             if m:
                 meta = list(m.groups())
                 kargs = []
@@ -116,7 +116,7 @@ def discover():
                     dict(
                         prop=meta[0],
                         tier=meta[1],
-                        timeout=int(meta[2]),
+                        timeout=min(int(meta[2]), int(os.environ.get("VERIF_TIMEOUT_CAP", "1000000"))),
                         desc=meta[3].strip(),
                         stubs=m.group(1),
                         unwind=int(m.group(2)),
@@ -276,6 +276,12 @@ def resolve_unwindset(h, tdir):
 
 
 RE_CHECK = re.compile(r"Check (\d+): (.*)")
+# CBMC / Kani memory-safety property classes (descriptions of pointer checks, the
+# preconditions of memcpy/memmove/memset, and the alignment asserted by the load models)
+RE_MEMCHECK = re.compile(
+    r"dereference failure|pointer|region (readable|writeable)|memcpy|memmove|memset|"
+    r"out of bounds|deallocated|dead object|misaligned"
+)
 
 
 def parse_log(path):
@@ -690,7 +696,11 @@ def main():
 
         sys.exit(c18.main(tier, seed))
 
-    tiers = ("quick",) if tier == "quick" else ("quick", "thorough")
+    # `extended` instances are kept for reference (no verdict within the budget of this
+    # sandbox, see DESIGN.md): they are scheduled by neither MANIFEST command.
+    tiers = {"quick": ("quick",), "thorough": ("quick", "thorough")}.get(
+        tier, ("quick", "thorough", "extended")
+    )
     known = [k for k in load_known() if k["prop"] == prop]
     wit_names = {k["witness"] for k in known}
     hs = [h for h in allh if h["prop"] == prop and h["tier"] in tiers]
@@ -756,10 +766,7 @@ def main():
             if r.get("reproduced"):
                 violations.append((h, r))
             else:
-                mem = any(
-                    "dereference failure" in f["description"] or "pointer" in f["description"]
-                    for f in r["failures"]
-                )
+                mem = any(RE_MEMCHECK.search(f["description"]) for f in r["failures"])
                 r["reason"] += " [counterexample did not reproduce natively%s]" % (
                     "; memory-safety check, see DESIGN.md C06" if mem else ""
                 )
